@@ -26,7 +26,10 @@ def bin_menu(t):
         arrays = [['a', 'arr', None, [0, 7]], ['a', 'arr', None, 1, 4, 6], ['a', 'arr', None, [1, 2], 5, [6, 7]], ['a', 'arr', 1, [0, 7]],
                   ['a', 'arr', 2, [0, 7]], ['a', 'arr', 3, [0, 7]], ['a', 'arr', 5, [0, 7]], ['a', 'arr', 2, [1, 3], [5, 7]],
                   ['a', 'arr', 3, 0, [2, 4], 7], ['a', 'arr', 2, 1, 3, 5], ['a', 'arr', 3, [0, 1], [4, 7]], ['a', 'arr', 8, [0, 7]],
-                  ['a', 'arr', 9, [0, 3]], ['a', 'arr', 4, [0, 2], [3, 6]], ['a', 'arr', None, [2, 5], [4, 6]]]
+                  ['a', 'arr', 9, [0, 3]], ['a', 'arr', 4, [0, 2], [3, 6]], ['a', 'arr', None, [2, 5], [4, 6]],
+                  # a remainder that spills over several further ranges
+                  ['a', 'arr', 3, 0, 1, 2, 4, 6], ['a', 'arr', 2, 0, 2, 4, 6, 7], ['a', 'arr', 3, [0, 1], 3, 5, 7],
+                  ['a', 'arr', 4, 0, 1, 2, 3, 5, 7], ['a', 'arr', 2, 1, 3, [5, 6]]]
     else:
         singles = [['b', 'bin', -1], ['b', 'bin', -4, 3], ['b', 'bin', [-2, 1]], ['b', 'bin', [-4, -3], [2, 3]], ['b', 'bin', [-3, 2], [-1, 0]]]
         arrays = [['a', 'arr', None, [-4, 3]], ['a', 'arr', None, -3, 0, 2], ['a', 'arr', 2, [-4, 3]], ['a', 'arr', 3, [-4, 3]],
